@@ -230,11 +230,7 @@ var addedByTransport = map[string]bool{"Host": true, "User-Agent": true, "Accept
 
 func wireRequest(c Case, subst func(string) string) []byte {
 	var sb strings.Builder
-	u := "http://" + c.URLHost + c.Path
-	if c.Query != "" {
-		u += "?" + c.Query
-	}
-	fmt.Fprintf(&sb, "GET %s HTTP/%s\r\nHost: %s\r\n", u, c.Proto, c.URLHost)
+	fmt.Fprintf(&sb, "GET %s HTTP/%s\r\nHost: %s\r\n", c.originalURL("http"), c.Proto, c.URLHost)
 	for _, l := range c.Req {
 		fmt.Fprintf(&sb, "%s:%s%s\r\n", l.N, l.P, subst(l.V))
 	}
@@ -360,13 +356,14 @@ func runWire(c Case) kit.Verdict {
 	_, oh := parseHead(got[1])
 
 	// request side, as seen by the origin
-	checkHeaders("request", m.in, oh, m.hop, managedReq, mergeSets(notAssertedOnWire, addedByTransport), &v)
+	tolerated := mergeSets(notAssertedOnWire, addedByTransport)
+	if c.UserInfo != "" {
+		tolerated["Authorization"] = true // net/http's client derives it from the URL's credentials when absent
+	}
+	checkHeaders("request", m.in, oh, m.hop, managedReq, tolerated, &v)
 	_, maj, min := protoOf(c)
 	checkChain("via", "Via at origin", m.in["Via"], oh["Via"], fmt.Sprintf("%d.%d %s", maj, min, self), &v)
-	u := "http://" + c.URLHost + c.Path
-	if c.Query != "" {
-		u += "?" + c.Query
-	}
+	u := c.originalURL("http")
 	checkForwarded(m, oh, " at origin", "127.0.0.1", "http", c.URLHost, u, &v)
 
 	// response side, as seen by the client
@@ -400,8 +397,7 @@ func genWire(t *rapid.T) Case {
 	c.URLHost = rapid.SampledFrom([]string{"origin.test", "origin.test:8080", "example.com"}).Draw(t, "url_host")
 	c.Host = c.URLHost
 	c.Remote = "127.0.0.1:0"
-	c.Path = rapid.SampledFrom([]string{"/", "/a/b", "/p/abc.html"}).Draw(t, "path")
-	c.Query = rapid.SampledFrom([]string{"", "x=1", "a=b&c=d"}).Draw(t, "query")
+	genTarget(t, &c)
 	c.Status = rapid.SampledFrom([]int{200, 200, 404, 500}).Draw(t, "status")
 	c.Body = rapid.IntRange(0, 300).Draw(t, "body")
 	c.Req = append(c.Req, genHeaders(t, genOpts{request: true, wire: true})...)
